@@ -127,6 +127,49 @@ def gen_operand(rng, convex, small):
     return p
 
 
+def gen_multibody(rng, origin_inside):
+    """one Manifold made of 2-3 disjoint convex bodies (Compose); gaps between the bodies are >= 1.5"""
+    def body():
+        k = rng.choice(["cube", "cube", "octa", "tet"])
+        if k == "cube":
+            return "cube %s %s %s 1" % (R3(rng, .5, 1), R3(rng, .5, 1), R3(rng, .5, 1))
+        if k == "octa":
+            return "sphere %s 4" % R3(rng, .3, .5)
+        return "tet sc 0.3 0.3 0.3"
+    n = rng.choice([2, 2, 3])
+    ax = rng.randrange(3)
+    p = body() + ("" if origin_inside else " tr %s %s %s" % (R3(rng, -.2, .2), R3(rng, -.2, .2), R3(rng, -.2, .2)))
+    for i in range(1, n):
+        sh = [float(R3(rng, -.3, .3)) for _ in range(3)]
+        sh[ax] += 2.6 * i + rng.uniform(0, 1)
+        if i == 2 and rng.random() < .5:
+            sh = [float(R3(rng, -.3, .3)) for _ in range(3)]
+            sh[(ax + 1) % 3] += 2.8
+        p += " %s tr %r %r %r compose" % (body(), round(sh[0], 3), round(sh[1], 3), round(sh[2], 3))
+    return p
+
+
+def gen_conv(rng):
+    """(program, class) for the IsConvex tie"""
+    k = rng.choice(["convex", "convex", "nonconvex", "multibody", "multibody", "genus"])
+    if k == "convex":
+        p = rng.choice(["cube %s %s %s 1" % (R3(rng, .5, 2), R3(rng, .5, 2), R3(rng, .5, 2)), "tet", "sphere %s %d" % (R3(rng, .5, 1.5), rng.choice([4, 8, 12])),
+                        "cyl %s %s %s %d" % (R3(rng, .5, 2), R3(rng, .4, 1), R3(rng, .4, 1), rng.choice([5, 8, 12]))])
+    elif k == "nonconvex":
+        p = rng.choice(["lshape 2 1 %s" % R3(rng, .5, 1.5), "cube 1 1 1 1 cube 1 1 1 1 tr %s %s %s add" % (R3(rng, .3, .7), R3(rng, .3, .7), R3(rng, .3, .7)),
+                        "cube 1 1 1 1 sphere 0.6 8 tr 0.5 0.5 0.5 sub", "cube 2 2 2 1 cube 1 1 1 1 sub"])
+    elif k == "multibody":
+        p = gen_multibody(rng, False)
+    else:
+        p = rng.choice(["torus %s %s %d %d" % (R3(rng, 1.2, 2), R3(rng, .3, .6), rng.choice([6, 8, 12]), rng.choice([4, 6])),
+                        "cube 2 2 2 1 cube 0.6 0.6 3 1 sub"])
+    if rng.random() < .7:
+        p += " rot %s %s %s" % (R3(rng, -180, 180), R3(rng, -180, 180), R3(rng, -180, 180))
+    if rng.random() < .5:
+        p += " tr %s %s %s" % (R3(rng, -2, 2), R3(rng, -2, 2), R3(rng, -2, 2))
+    return p, k
+
+
 F2_SMALL = "lshape 1 0.5 0.5 tr -0.25 -0.25 -0.25"
 F2_BIG = "lshape 4 2 2 tr -1 -1 -1"
 
@@ -135,6 +178,7 @@ def build_cases(cx):
     rng = random.Random(cx.seed * 7919 + 16)
     cases = []   # (id, line, kind, info)
     nh, nm, nk = cx.pick((60, 8, 10), (4000, 300, 200))
+    nmb, ncv = cx.pick((8, 30), (150, 1500))
 
     def add(line, kind, info=None):
         cid = str(len(cases))
@@ -149,6 +193,15 @@ def build_cases(cx):
         add(open(cfile).read().strip(), "hull-corpus-loses-points", {"corpus": "quickhull"})
     add("HULLM @ cube 1 1 1 1 sphere 0.7 8 tr 0.378 0.038 0.31 sub rot -171.553 60.139 -147.658 cube 0.845 1.612 1.147 1 tr -1.761 -1.075 -0.71",
         "hull-corpus-loses-points", {"corpus": "quickhull"})
+    # one Manifold made of disjoint convex bodies must not take the convex-convex fast path (IsConvex tests the genus)
+    TWO = "cube 1 1 1 0 cube 1 1 1 0 tr 4 0 0 compose"
+    add("MINK @ sum %s | cube 0.2 0.2 0.2 1" % TWO, "mink-sum-multibody", {"aconvex": False, "bconvex": True, "corpus": "two-cubes"})
+    add("MINK @ sum cube 0.2 0.2 0.2 1 | cube 1 1 1 1 cube 1 1 1 0 tr 4 0 0 compose", "mink-sum-multibody", {"aconvex": True, "bconvex": False})
+    add("MINK @ sum cube 1 1 1 0 cube 1 1 1 0 tr 4 0 0 add | sphere 0.3 4", "mink-sum-multibody", {"aconvex": False, "bconvex": True})
+    add("MINK @ sum %s | lshape 0.4 0.2 0.2 tr -0.1 -0.1 -0.1" % TWO, "mink-sum-multibody", {"aconvex": False, "bconvex": False})
+    add("MINK @ diff %s | cube 0.2 0.2 0.2 1" % TWO, "mink-diff-multibody", {"aconvex": False, "bconvex": True})
+    add("CONV @ %s" % TWO, "conv-multibody")
+    add("CONV @ torus 2 0.5 8 6", "conv-genus")
     add("HULLP @ 4 0 0 0 1 0 0 0 1 0 1 1 0", "hull-coplanar")
     add("HULLP @ 5 0 0 0 0 0 1 0.5 0 0 0.5 0 0 0.5 0 1", "hull-coplanar")
     add("HULLP @ 0", "hull-none")
@@ -171,6 +224,18 @@ def build_cases(cx):
             bc = True            # structuring element convex (see META.note)
             a = gen_operand(rng, ac, False); b = gen_operand(rng, bc, True)
         add("MINK @ %s %s | %s" % (op, a, b), "mink-" + op, {"aconvex": ac, "bconvex": bc})
+    for i in range(nmb):
+        # multi-body operand, in both operand positions, other operand convex (mostly) or not
+        other_convex = rng.random() < .75
+        other = gen_operand(rng, other_convex, True)
+        if rng.random() < .6:
+            op = rng.choice(["sum", "sum", "diff"])
+            add("MINK @ %s %s | %s" % (op, gen_multibody(rng, False), other), "mink-%s-multibody" % op, {"aconvex": False, "bconvex": other_convex})
+        else:
+            add("MINK @ sum %s | %s" % (other, gen_multibody(rng, True)), "mink-sum-multibody", {"aconvex": other_convex, "bconvex": False})
+    for i in range(ncv):
+        p, k = gen_conv(rng)
+        add("CONV @ " + p, "conv-" + k)
     return cases
 
 
@@ -227,7 +292,7 @@ def run(cx):
     cases = build_cases(cx)
     lines = [c[1] for c in cases]
     info = {c[0]: c for c in cases}
-    kl = lambda l: l.split()[1] if l[:4] in ("HULL", "MINK") else None
+    kl = lambda l: l.split()[1] if l[:4] in ("HULL", "MINK", "CONV") else None
     ko = lambda l: l.split()[1] if l.startswith("END ") else None
     out_impl, crashes = vp.run_cases(exe, lines, kl, ko, timeout=cx.pick(300, 1500))
     for cl, rc, err in crashes:
@@ -236,13 +301,15 @@ def run(cx):
     out_v, bad = run_driver_parallel(drv, [struct.pack(">d", de).hex()], out_impl, vp.NPROC)
     for rc, err in bad:
         cx.broke("corr:C16/driver", "checker driver exited %s: %s" % (rc, err))
-    vols = {}
+    vols, disp = {}, {}
     for l in out_impl.splitlines():
         if l.startswith("MS "):
             t = l.split()
             vols[t[1]] = [struct.unpack(">d", bytes.fromhex(h))[0] for h in t[4:7]]
+            if len(t) >= 12:
+                disp[t[1]] = (int(t[10]), int(t[11]))     # Impl::IsConvex() of A, B: which branch was taken
     ended, checked, nontriv = set(), 0, set()
-    stats = dict(hull=0, hull_flat=0, hull_volumetric=0, hull_max_tris=0, sum=0, sum_pairs=0, sum_far=0, diff=0, diff_points=0, diff_pairs=0)
+    stats = dict(conv=0, conv_isconvex=0, conv_exact_convex=0, conv_conservative_false=0, dispatch_cc=0, dispatch_nc=0, dispatch_nn=0, hull=0, hull_flat=0, hull_volumetric=0, hull_max_tris=0, sum=0, sum_pairs=0, sum_far=0, diff=0, diff_points=0, diff_pairs=0)
 
     def viol(key, cid, what, l):
         c = info[cid]
@@ -277,10 +344,23 @@ def run(cx):
                 viol("hull-degenerate-not-empty", cid, "input spans no volume but the hull does not simplify to the empty manifold (Simplify().IsEmpty()=%d)" % simp_empty, l)
             if npts >= 5 and not flat:
                 nontriv.add(cid)
+        elif chk == "conv":
+            status, isconv, genus, exact, code, nt = v
+            stats["conv"] += 1; stats["conv_isconvex"] += isconv; stats["conv_exact_convex"] += exact
+            if status == 0 and isconv == 1 and exact == 0:
+                viol("isconvex-accepts-nonconvex", cid, "Impl::IsConvex() is true but the mesh is not globally convex (exact test of the mesh against its own vertices: "
+                     "code %d, genus %d): Impl::Minkowski would take the convex-convex fast path" % (code, genus), l)
+            if status == 0 and isconv == 0 and exact == 1:
+                stats["conv_conservative_false"] += 1      # allowed: only costs the slower path
+            if nt >= 8:
+                nontriv.add(cid)
         elif chk == "sum":
             status, oin, closed, nsa, nsb, tested, missing, skipped, a_tested, a_missing, far_tested, far_inside, rnt = v
             stats["sum"] += 1; stats["sum_pairs"] += tested; stats["sum_far"] += far_tested
             both_nc = not c[3].get("aconvex") and not c[3].get("bconvex")
+            d = disp.get(cid)
+            if d:
+                stats["dispatch_cc" if d == (1, 1) else "dispatch_nn" if d == (0, 0) else "dispatch_nc"] += 1
             if status != 0:
                 viol("minkowski-status", cid, "MinkowskiSum returned status %d" % status, l)
                 continue
@@ -296,7 +376,8 @@ def run(cx):
             if a_missing:
                 viol("minkowski-sum-omits-A", cid, "MinkowskiSum: %d of %d interior points of A are outside the result" % (a_missing, a_tested), l)
             if far_inside:
-                viol("minkowski-sum-too-large", cid, "MinkowskiSum: %d of %d points farther from A than reach(B)+10 tol are inside the result" % (far_inside, far_tested), l)
+                viol("minkowski-sum-too-large", cid, "MinkowskiSum: %d of %d points farther from A than reach(B)+10 tol are inside the result (%s); IsConvex(A),IsConvex(B) = %s; "
+                     "volumes A,B,result = %s" % (far_inside, far_tested, l.split("|")[-1].strip(), d, vols.get(cid)), l)
             if tested > 0:
                 nontriv.add(cid)
         elif chk == "diff":
